@@ -559,7 +559,12 @@ class Item:
             if r2 == z3.unknown:
                 raise HarnessError("%s/%s: solver returned unknown inside known-finding region" % (self.name, label))
             if r2 == z3.sat:
-                self._counterexample(label, self._robust_model(base + [t], m2, path), replay, f)
+                try:
+                    self._counterexample(label, self._robust_model(base + [t], m2, path), replay, f)
+                except HarnessError as e:
+                    # inside a known-finding region nothing is claimed; a witness that does not replay (a decision
+                    # boundary hit exactly) just means this path does not demonstrate the finding
+                    self.notes.append("known-finding region %s: a symbolic witness did not replay" % f["id"])
         if ok:
             self.discharged += 1
         return ok
